@@ -117,9 +117,15 @@ def _family_is_random(p, seed, tier):
     return a != b
 
 
+STOP_CONC = None      # shared flag (set in main before the pool forks): an evaluation of this run did not terminate
+
+
 def _conc_worker(args):
     prop, pname, seed, tier, shard, nshards = args
     from pyvc import harness, core
+    if STOP_CONC is not None and STOP_CONC.value:
+        return dict(proof=pname, evaluated=0, generated=0, skipped=0, ticks=0, distinct=[], failures=[], sample=None,
+                    errors=["not run: another evaluation of this run did not terminate (reported there)"], wall_s=0.0)
     load_contracts(prop)
     pdef = harness.PROOFS[pname]
     n = ok = skipped = ticks = 0
@@ -160,16 +166,38 @@ def _conc_worker(args):
             if not good and len(failures) < 20:
                 failures.append(dict(obligation=name, inputs=core._jsonable(inputs), detail=detail))
         if any(name.endswith("/terminates") and not good for name, good, _ in results):
+            if STOP_CONC is not None:
+                STOP_CONC.value = 1
             break               # one non-terminating evaluation is enough; do not wait for the rest of the family
+        if STOP_CONC is not None and STOP_CONC.value:
+            errors.append("stopped early: another evaluation of this run did not terminate (reported there)")
+            break
     return dict(proof=pname, evaluated=ok, generated=n, skipped=skipped, ticks=ticks, distinct=sorted(distinct),
                 failures=failures, sample=sample, errors=errors[:3], wall_s=time.time() - t0)
 
 
 # ---------------------------------------------------------------------------------------
+REPLAY_SPENT = [0.0]      # seconds spent in replays during this run (budget: PYVC_T_REPLAY_TOTAL_S)
+
+
 def run_replay_file(path):
-    p = subprocess.run([REPLAY_PY, "-m", "pyvc.replay", path, "--json"], cwd=HERE, capture_output=True,
-                       text=True, timeout=600,
-                       env=dict(os.environ, PYTHONPATH="%s:%s/appnotes" % (REPO, REPO), PYVC_REPO=REPO))
+    """replay one counter-model / failing family member on the un-instrumented code in its own process.  Replays share a
+    time budget: a change that makes the code slow or non-terminating would otherwise cost one time limit per refuted
+    obligation; past the budget a replay is skipped and counts as 'not reproduced' (the ledger rule still reports the
+    obligation, with no-failing-input-found)."""
+    total = float(os.environ.get("PYVC_T_REPLAY_TOTAL_S", "300" if os.environ.get("VERIF_TIER_EFFECTIVE", "quick") == "quick" else "3600"))
+    if REPLAY_SPENT[0] > total:
+        return 5, dict(status="skipped", message="replay budget of %.0f s used up by earlier replays" % total, failed=[])
+    limit = float(os.environ.get("PYVC_T_CASE_S", "150")) * 2 + 60
+    t0 = time.time()
+    try:
+        p = subprocess.run([REPLAY_PY, "-m", "pyvc.replay", path, "--json"], cwd=HERE, capture_output=True,
+                           text=True, timeout=limit,
+                           env=dict(os.environ, PYTHONPATH="%s:%s/appnotes" % (REPO, REPO), PYVC_REPO=REPO))
+    except subprocess.TimeoutExpired:
+        REPLAY_SPENT[0] += time.time() - t0
+        return 4, dict(status="timeout", message="replay did not finish within %.0f s" % limit, failed=[])
+    REPLAY_SPENT[0] += time.time() - t0
     try:
         out = json.loads(p.stdout.strip().splitlines()[-1])
     except Exception:
@@ -251,6 +279,10 @@ def main(argv):
         os.remove(f)
 
     ctx = mp.get_context("fork")
+    global STOP_CONC
+    STOP_CONC = ctx.Value("i", 0)
+    os.environ.setdefault("PYVC_T_CASE_S", "60" if tier == "quick" else "150")
+    os.environ["VERIF_TIER_EFFECTIVE"] = tier
     sym_jobs = [(prop, p.name, tier) for p in proofs if not p.bounded_only]
     conc_jobs = []
     extra_seeds = int(os.environ.get("PYVC_THOROUGH_SEEDS", "12")) if tier == "thorough" else 1
@@ -265,12 +297,41 @@ def main(argv):
                     conc_jobs.append((prop, p.name, sd, tier, s, ns))
     sharded = [p for p in proofs if not p.bounded_only and getattr(p, "shards", 1) > 1]
     sym_jobs = [j for j in sym_jobs if harness.PROOFS[j[1]].shards <= 1]
+    # every job is awaited with a time budget: a worker that dies abruptly (killed, interpreter crash) or hangs would make a
+    # plain Pool.map wait for ever; such a job is reported as LOST (proof undecided / family error), never as a verdict
+    budget = float(os.environ.get("PYVC_T_JOB_S", "900" if tier == "quick" else "14400"))
+
+    def lost_sym(job, why):
+        return dict(proof=job[1], crash="engine fault: %s" % why, summary=[], paths=0, covers=[], undecided=None, wall_s=0.0,
+                    sources={}, stats={})
+
+    def lost_conc(job, why):
+        return dict(proof=job[1], evaluated=0, generated=0, skipped=0, ticks=0, distinct=[], failures=[], sample=None,
+                    errors=[why], wall_s=0.0)
+
+    def gather(pool, fn, job_list, lost):
+        handles = [pool.apply_async(fn, (j,)) for j in job_list]
+
+        def get():
+            out = []
+            deadline = time.time() + budget
+            for h, j in zip(handles, job_list):
+                try:
+                    out.append(h.get(timeout=max(1.0, deadline - time.time())))
+                except mp.TimeoutError:
+                    out.append(lost(j, "no result within %.0f s (worker lost or not terminating)" % budget))
+                except Exception as e:      # the worker function itself never raises; this is transport trouble
+                    out.append(lost(j, "worker failed: %s: %s" % (type(e).__name__, e)))
+            return out
+        return get
+
     with ctx.Pool(min(jobs, max(1, len(sym_jobs) + len(conc_jobs) + 8 * len(sharded))), maxtasksperchild=4) as pool:
-        sym_async = pool.map_async(_sym_worker, sym_jobs, chunksize=1)
-        conc_async = pool.map_async(_conc_worker, conc_jobs, chunksize=1)
-        fr_async = pool.map_async(_frontier_worker, [(prop, p.name, tier, p.shards * 3) for p in sharded], chunksize=1)
+        sym_get = gather(pool, _sym_worker, sym_jobs, lost_sym)
+        conc_get = gather(pool, _conc_worker, conc_jobs, lost_conc)
+        fr_get = gather(pool, _frontier_worker, [(prop, p.name, tier, p.shards * 3) for p in sharded],
+                        lambda j, why: dict(res=lost_sym(j, why), pending=[]))
         shard_jobs = []
-        fronts = fr_async.get()
+        fronts = fr_get()
         for p, fr in zip(sharded, fronts):
             pend = fr["pending"]
             k = max(1, min(p.shards, len(pend)))
@@ -278,10 +339,11 @@ def main(argv):
                 chunk = pend[i::k]
                 if chunk:
                     shard_jobs.append((prop, p.name, tier, chunk))
-        shard_async = pool.map_async(_sym_worker, shard_jobs, chunksize=1)
-        sym_res = sym_async.get()
-        conc_res = conc_async.get()
-        shard_res = shard_async.get()
+        shard_get = gather(pool, _sym_worker, shard_jobs, lost_sym)
+        sym_res = sym_get()
+        conc_res = conc_get()
+        shard_res = shard_get()
+        pool.terminate()
     for p, fr in zip(sharded, fronts):
         parts = [fr["res"]] + [r for r in shard_res if r["proof"] == p.name]
         sym_res.append(_merge(parts))
